@@ -190,6 +190,23 @@ func main() {
 		}
 	}
 	if !*lemmasOnly {
+		// every requested function must be there and under contract: a check whose function or contract has
+		// disappeared must not pass by proving nothing about it
+		for _, w := range want {
+			found := false
+			for _, k := range keys {
+				kb := k
+				if i := strings.Index(k, "@"); i >= 0 {
+					kb = k[:i]
+				}
+				if strings.HasSuffix(kb, w) || kb == w {
+					found = true
+				}
+			}
+			if !found {
+				eng.errorf("no function under contract matches %q (function or contract removed?)", w)
+			}
+		}
 		for _, k := range keys {
 			if len(want) > 0 {
 				ok := false
